@@ -61,11 +61,13 @@ def step (s : St) (args : List String) : St × String × String :=
       let p := decPath p
       (s, renderCounts (update s.t p none).1, renderCounts (s.regs.update p))
   | ["updrm", p, c, q] =>
-      -- an update in flight while (c, q) is removed: the removal waits for the delivery, so this is
-      -- `upd p` followed by `rm c q`
+      -- a fresh client `c` registered at `q`, an update in flight, `c` removed: the removal waits for the
+      -- delivery, so this is `add c q`, `upd p`, `rm c q`
       let p := decPath p; let c := decStr c; let q := decPath q
-      ({ s with t := removeQuery s.t q c, regs := s.regs.remove q c },
-       renderCounts (update s.t p none).1 ++ " mon=ok", renderCounts (s.regs.update p) ++ " mon=ok")
+      let t1 := addQuery s.t q c
+      let r1 := s.regs.add q c
+      ({ s with t := removeQuery t1 q c, regs := r1.remove q c },
+       renderCounts (update t1 p none).1 ++ " mon=ok", renderCounts (r1.update p) ++ " mon=ok")
   | "once" :: ps =>
       let ps := ps.map decPath
       (s, renderCounts (updateMany s.t ps (some [])).1, renderCounts (s.regs.once ps))
